@@ -168,7 +168,7 @@ def speciateWhy (o : EpochOpts W) (before : Pop W) (batch : List (Org W)) (after
   let (reps, last, why) := batch.foldl step (reps0, before.lastSpecies, "")
   if why != "" then why
   else if after.lastSpecies != last then "LastSpecies differs from the number of species founded"
-  else if after.species.length != reps.length then "unexpected number of species"
+  else if (after.species.filter (fun s => !s.orgs.isEmpty)).length != reps.length then "unexpected number of species"  -- a listed species without organisms has no representative and is skipped
   else ""
 
 end GoNeat.PopSpec
